@@ -167,6 +167,9 @@ func (s *Store) Delete(ctx context.Context, target ocispec.Descriptor) error {
 	defer s.sync.Unlock()
 
 	deleteQueue := []ocispec.Descriptor{target}
+	// untagged referrers of deleted manifests that another manifest still
+	// contains; they follow once nothing contains them any more
+	var contained []ocispec.Descriptor
 	for len(deleteQueue) > 0 {
 		head := deleteQueue[0]
 		deleteQueue = deleteQueue[1:]
@@ -180,7 +183,7 @@ func (s *Store) Delete(ctx context.Context, target ocispec.Descriptor) error {
 			for _, r := range referrers {
 				// do not delete existing tagged manifests
 				if !s.isTagged(r) {
-					deleteQueue = append(deleteQueue, r)
+					contained = append(contained, r)
 				}
 			}
 		}
@@ -202,10 +205,38 @@ func (s *Store) Delete(ctx context.Context, target ocispec.Descriptor) error {
 					deleteQueue = append(deleteQueue, d)
 				}
 			}
+			// do not delete referrers that a remaining manifest contains
+			pending := contained
+			contained = nil
+			for _, r := range pending {
+				isContained, err := s.isContained(ctx, r)
+				if err != nil {
+					return err
+				}
+				if isContained {
+					contained = append(contained, r)
+				} else {
+					deleteQueue = append(deleteQueue, r)
+				}
+			}
 		}
 	}
 
 	return nil
+}
+
+// isContained checks if a manifest other than the referrers of node links to
+// node.
+func (s *Store) isContained(ctx context.Context, node ocispec.Descriptor) (bool, error) {
+	predecessors, err := s.graph.Predecessors(ctx, node)
+	if err != nil {
+		return false, err
+	}
+	referrers, err := registry.Referrers(ctx, &unsafeStore{s}, node, "")
+	if err != nil {
+		return false, err
+	}
+	return len(predecessors) > len(referrers), nil
 }
 
 // delete deletes one node and returns the dangling nodes caused by the delete.
